@@ -130,7 +130,7 @@ def run_mode(text, mode, smart, project, highlight=False):
         exts = EXT_STATIC + smart
         cfg = {"enable_extensions": exts}
         md = create_md_parser(MdParserConfig(**cfg), RendererHTML)
-        docs["docutils"], _ = front.docutils_parse(text, settings={"myst_enable_extensions": exts})
+        docs["docutils"], _ = front.docutils_parse(text, settings={"myst_enable_extensions": exts, "myst_highlight_code_blocks": highlight})
     if project is not None and mode != "gfm":
         project.app.env.myst_config = MdParserConfig(**cfg)
         docs["sphinx"], _ = front.sphinx_parse_pre(text, project, "index")
@@ -257,8 +257,38 @@ def sub_headings(acc, shard, nshards, tier, seed):
     acc.exhaustive = True
 
 
+CODE_LANGS = ["python", "c", "json", "default", "", "mylang", "python3.99", "mermaid", "plantuml", "c++", "{note}", "Python", "text"]
+
+
+def sub_codelang(acc, shard, nshards, tier, seed):
+    """Fenced code in every language spelling (known to pygments, unknown to it, none) x nesting x fence character, with
+    syntax highlighting *on* in the docutils front end (its default), in both front ends: the language is carried over
+    whether or not a lexer exists for it.  The code is one line, so the recorded finding about blank lines stripped by the
+    highlighter does not interfere (exhaustive)."""
+    kn = known()
+    i = 0
+    with front.sphinx_project() as project:
+        for lang in CODE_LANGS:
+            for nest in ("", "> ", "- ", "1. "):
+                for fence in ("```", "~~~"):
+                    for mode in ("commonmark", "myst"):
+                        i += 1
+                        if i % nshards != shard or (mode == "myst" and lang.startswith("{")):
+                            continue
+                        pad = " " * len(nest)
+                        text = f"before\n\n{nest}{fence}{lang}\n{pad}x = 1\n{pad}{fence}\n\nafter\n"
+                        case = {"text": text, "mode": mode, "smart": [], "highlight": True, "sphinx": True}
+                        for v in check_case(acc, case, project):
+                            if kn.matches(v):
+                                acc.known_hits[v["signature"]] += 1
+                            elif len(acc.violations) < 8 and all(v["signature"] != x["signature"] for x in acc.violations):
+                                acc.violations.append(v)
+    acc.exhaustive = True
+
+
 def plan(tier):
-    return [Sub("headings", sub_headings, 4), Sub("docutils", sub_docutils, 8), Sub("both", sub_both, 4)]
+    return [Sub("headings", sub_headings, 4), Sub("docutils", sub_docutils, 8), Sub("both", sub_both, 4),
+            Sub("codelang", sub_codelang, 2)]
 
 
 def replay(sub, input):
